@@ -364,7 +364,7 @@ class FsProperty:
     real = ["nix_manipulator parse_file / Import / NixPath (real)", "kernel file system on tmpfs, os.chdir, rmdir of the cwd (real)"]
     stubbed = ["I/O errors: pathlib.Path.read_text patched to raise EACCES/EIO for one chosen file"]
 
-    def __init__(self, quick_runs=4000, thorough_runs=80000):
+    def __init__(self, quick_runs=20000, thorough_runs=300000):
         self.pid = "C17"
         self.runs = {"quick": quick_runs, "thorough": thorough_runs}
 
